@@ -18,7 +18,7 @@ package handlers
 // after "\n" (kept) whatever the chunking of p is: the state between chunks is
 // receiveBuf. g_printedStr: what was passed to dlog.Client.Raw.
 //@ func (*baseHandler).handleMessage
-//@   assigns g_dispStr, g_printedStr, *h.done
+//@   assigns g_dispStr, g_printedStr, g_stdout, *h.done
 //@   effect g_dispStr == old(g_dispStr) + message + "\x1e"
 //@   ensures [printed-unless-hidden] g_printedStr == old(g_printedStr) + ite(len(message) > 0 && message[0] == 46, "", message)
 //@ func (*baseHandler).Shutdown
@@ -26,7 +26,7 @@ package handlers
 //@ func (*baseHandler).handleHiddenMessage
 //@   assigns *h.done
 //@ func (*baseHandler).Write
-//@   assigns h.receiveBuf, *h.done, g_dispStr, g_printedStr
+//@   assigns h.receiveBuf, *h.done, g_dispStr, g_printedStr, g_stdout
 //@   requires [buffer-has-no-delimiter] !contains(h.receiveBuf.content, "\n") && !contains(h.receiveBuf.content, "\xac")
 //@   ghost-init g_dispStr == ""
 //@   loop 1 invariant [framed] g_dispStr + h.receiveBuf.content == old(h.receiveBuf.content) + frame(str(p[0:rangeindex+1]))
